@@ -306,8 +306,13 @@ def check(case):
     return r, s
   log = res['log']
   pos = {i: e for i, e in enumerate(log)}
-  exits = [i for i, e in enumerate(log) if e[0] == 'abort-exit']
-  enters = [i for i, e in enumerate(log) if e[0] == 'abort-enter']
+  # an abort request from a helper thread that found no executor (the Test was between two execute() calls, or had not
+  # created its executor yet) is a documented no-op: it is not an abort of this run and is left out of every invariant
+  noop = {e[1] for e in log if e[0] == 'abort-enter' and e[1] != 'sig' and len(e) > 3 and e[3] is False}
+  exits = [i for i, e in enumerate(log) if e[0] == 'abort-exit' and e[1] not in noop]
+  enters = [i for i, e in enumerate(log) if e[0] == 'abort-enter' and e[1] not in noop]
+  if noop:
+    r.classes.append('noop-abort-before-executor')
   cb = [i for i, e in enumerate(log) if e[0] == 'callback']
   plug_td = [i for i, e in enumerate(log) if e[0] == 'plug-td']
   starts = [(i, e) for i, e in enumerate(log) if e[0] == 'start']
@@ -333,7 +338,7 @@ def check(case):
     return r, s
   # an abort request that arrives before execute() has created its executor finds no running test: a no-op by design
   early = [e for e in log if e[0] == 'abort-enter' and e[1] != 'sig' and len(e) > 3 and e[3] is False]
-  if early and len(enters) == len(early) and res['outcome'] != 'ABORTED':
+  if early and not enters and res['outcome'] != 'ABORTED':
     r.classes.append('abort-before-executor')
     r.nontrivial = False
     return r, s
